@@ -191,7 +191,7 @@ def run(ctx, chk):
     chk.rule("C19.R3", "no observable iteration over a hash container", floor=1)
     chk.rule("C19.R4", "no clock / RNG / environment / address in any local function", floor=2)
     chk.rule("C19.R5", "a new machine is all zero except FLAGS=F000h and CS=FFFFh", floor=15)
-    chk.rule("C19.R6", "assembler actions leave their bookkeeping (nesting set, source lock) as they found it on every path, error paths included", floor=3)
+    chk.rule("C19.R6", "assembler actions leave their bookkeeping (nesting set, source lock) as they found it on every path, error paths included", floor=2)
     chk.assumptions += [
         "std (printing, HashMap with a fixed key set, String) is deterministic apart from hash iteration order",
         "the generated LR drivers (not dumped as MIR) are covered by the type facts of R1/R2: they are safe code without statics",
